@@ -268,6 +268,38 @@ pub fn build(g: &Grammar, thorough: bool) -> Vec<Case10> {
             }
         }
     }
+    // ---- E: two usage positions on one referrer, each naming another helper: both helpers have to stay
+    // (a COMPU_METHOD with COMPU_TAB_REF and STATUS_STRING_REF and REF_UNIT; a GROUP / FUNCTION with all its lists; a
+    // CHARACTERISTIC with conversion, record layout, AXIS_DESCR conversion and FUNCTION_LIST)
+    {
+        let tabs = ["COMPU_TAB", "COMPU_VTAB", "COMPU_VTAB_RANGE"];
+        for t1 in tabs {
+            for t2 in tabs {
+                for used in [true, false] {
+                    let mut elems = vec![e(t1, "T1", "c1")];
+                    elems.push(e(t2, "T2", "c1"));
+                    elems.push(e("UNIT", "U1", "c1"));
+                    elems.push(e("COMPU_METHOD", "R", "c1").set("conversion_type", "TAB_INTP").kid(ks("COMPU_TAB_REF", &[("conversion_table", "T1")])).kid(ks("STATUS_STRING_REF", &[("conversion_table", "T2")])).kid(ks("REF_UNIT", &[("unit", "U1")])));
+                    if used {
+                        elems.push(e("MEASUREMENT", "MM", "c1").set("conversion", "R"));
+                    }
+                    out.push(Case10 { label: format!("COMPU_METHOD with COMPU_TAB_REF -> {t1} T1, STATUS_STRING_REF -> {t2} T2, REF_UNIT -> U1 [{}]", if used { "used" } else { "unused" }), family: "usage-pairs".into(), text: file_text(g, "m", &elems) });
+                }
+            }
+        }
+        let elems = vec![
+            e("MEASUREMENT", "M", "c1"),
+            e("COMPU_METHOD", "CM1", "c1"),
+            e("COMPU_METHOD", "CM2", "c1"),
+            e("RECORD_LAYOUT", "RL1", "c1"),
+            e("FUNCTION", "F1", "c1").kid(kl("IN_MEASUREMENT", &["M"])),
+            e("FUNCTION", "F2", "c1").kid(kl("SUB_FUNCTION", &["F1"])),
+            e("GROUP", "G1", "c1").kid(kl("REF_MEASUREMENT", &["M"])),
+            e("GROUP", "G0", "c1").kid(k("ROOT")).kid(kl("SUB_GROUP", &["G1"])).kid(kl("FUNCTION_LIST", &["F2"])).kid(kl("REF_CHARACTERISTIC", &["C"])),
+            e("CHARACTERISTIC", "C", "c1").set("conversion", "CM1").set("deposit", "RL1").kid(ks("AXIS_DESCR", &[("conversion", "CM2")])).kid(kl("FUNCTION_LIST", &["F1"])),
+        ];
+        out.push(Case10 { label: "one referrer per kind with every usage position populated by a different helper".into(), family: "usage-pairs".into(), text: file_text(g, "m", &elems) });
+    }
     out
 }
 
